@@ -277,8 +277,8 @@ func runW1Scenario(t *testing.T, ops *opsWriter, rng *rand.Rand, steps int) {
 				}
 				g.hRecvPend = true
 				w.s.call(g.sid, hcmd{op: "recv"})
-			case k < 53: // handler send / reply
-				g := pickG(func(s *gStream) bool { return s.hEntered && !s.hSendPend && !s.hReturned })
+			case k < 53: // handler send / reply (never after a failed send: the handler contract)
+				g := pickG(func(s *gStream) bool { return s.hEntered && !s.hSendPend && !s.hReturned && !s.hSendFailed })
 				if g == nil {
 					continue
 				}
